@@ -14,8 +14,9 @@ import PV.Prog.RenderLemmas
                                                       Interactive mode = Module mode
   (d) `elif_chain_spec`, `import_level_spec`, `annassign_simple_spec` (+ `annassign_bare_name`, `annassign_paren_not_simple`), `match_subject_spec`
                                                       the hand-written action code at program level
-  (e) `render_parse_partial`                          printing a program of the fragment (`PV.Prog.Render`) in canonical
-                                                      layout and parsing it gives the program back
+  (e) `render_parse_partial`                          printing a program of the fragment `InFragmentP` (`PV.Prog.Render`: all 28
+                                                      statement kinds, all 8 pattern kinds, over C11's `InFragmentX`) in
+                                                      canonical layout and parsing it gives the program back
 -/
 namespace PV.Prog
 open PV.Expr PV.C11
@@ -429,7 +430,11 @@ theorem inFragment_core_sub (e : Expr) (h : InFragment e) : inFragM (.expression
     * every tree that contains an f-string (`JoinedStr` / `FormattedValue`) anywhere — outside C11's `InFragmentX`
       (their round trip is not a token-level statement, see design/C11.md), in particular f-strings as `MatchValue`
       patterns / mapping keys;
-    * implicitly concatenated literals need nothing special (the tree holds the concatenated constant).
+    * every tree with a comprehension whose target is not an `Expression`-level operand (`[x for (a if b else c) in y]`;
+      likewise a parenthesised lambda / `and` / `or` / `not` / comparison / named expression as a comprehension target or as
+      an element of its bare tuple) — excluded by `fx .target` of C11: unparse.rs writes comprehension targets without
+      parentheses, and that rendering does not re-parse (statement-level `for` / `with` / `del` targets are inside: the
+      printer writes them at `Expression` level).
     Everything else the grammar can build is inside; trees the grammar can NOT build are outside by the side
     conditions listed at `render_parse_partial` (for them the statement is vacuous or false: e.g. an empty body has
     no text at all). -/
